@@ -78,7 +78,7 @@ class C01:
     LEVEL = "exploration"
     NO_PIN = True   # no baton threads here: let the OS scheduler place the workers
     TIERS = {
-        "quick": {"runs": 40000, "budget_s": 55, "chunk": 100, "determinism_runs": 32},
+        "quick": {"runs": 100000, "budget_s": 50, "chunk": 100, "determinism_runs": 32},
         "thorough": {"runs": 1500000, "budget_s": 900, "chunk": 200, "determinism_runs": 256, "minimise_s": 150},
     }
     RULE = ("Each run: one environment recipe (mode, undefined type, autoescape, feature flags, limits, extra), one "
